@@ -17,13 +17,14 @@ structure Prims extends Ntor.Prims where
   /-- `Representative.ToPublic` (Elligator 2 direct map; ignores the two top bits) -/
   reprToPublic : Bytes → Bytes
 
-/-- `strconv.FormatInt(h, 10)` -/
-def natDigits : Nat → Nat → List Char
+/-- `strconv.FormatInt(h, 10)`: the ASCII decimal digits, most significant first (bytes directly,
+    so that `C06.epoch_decimal` needs no UTF-8 reasoning) -/
+def natDigits : Nat → Nat → Bytes
   | 0, _ => []
-  | fuel + 1, n => if n < 10 then [Char.ofNat (48 + n)] else natDigits fuel (n / 10) ++ [Char.ofNat (48 + n % 10)]
+  | fuel + 1, n => if n < 10 then [UInt8.ofNat (48 + n)] else natDigits fuel (n / 10) ++ [UInt8.ofNat (48 + n % 10)]
 
 def epochStr (h : Int) : Bytes :=
-  let body := (String.ofList (natDigits (h.natAbs + 1) h.natAbs)).toUTF8.toList
+  let body := natDigits (h.natAbs + 1) h.natAbs
   if h < 0 then 45 :: body else body
 
 /-- key of the mark/MAC HMAC: `B ‖ NODEID` -/
